@@ -222,6 +222,11 @@ func storePresentation(tx *gorm.DB, serviceID string, timestamp int, presentatio
 
 	credentialStore := store.CredentialStore{}
 	for _, verifiableCredential := range presentation.VerifiableCredential {
+		if verifiableCredential.ID == nil {
+			// the credential store identifies a credential by its ID. Presentations are stored before they are verified
+			// (client) so this can't be left to the verifier.
+			return nil, errors.Join(ErrInvalidPresentation, errCredentialWithoutID)
+		}
 		cred, err := credentialStore.Store(tx, verifiableCredential)
 		if err != nil {
 			return nil, err
